@@ -136,8 +136,20 @@ func ReadUint32(rd io.Reader) (uint32, error) {
 	return val, nil
 }
 
+// maxPrealloc is the largest buffer that is allocated up front on the word of
+// a length field; longer data is read in growing steps, so that memory use is
+// proportional to the data that is really there.
+const maxPrealloc = 4096
+
 // ReadNBytes reads n bytes from the reader
 func ReadNBytes(n int, rd io.Reader) ([]byte, error) {
+	if n > maxPrealloc {
+		b, err := io.ReadAll(io.LimitReader(rd, int64(n)))
+		if err == nil && len(b) < n {
+			err = io.ErrUnexpectedEOF
+		}
+		return b, err
+	}
 	var b []byte = make([]byte, n)
 	num, err := rd.Read(b)
 
